@@ -4,6 +4,7 @@ package httpserver
 
 import (
 	"net/http"
+	"sort"
 )
 
 // Verification hooks (build tag "verif" only).
@@ -19,4 +20,18 @@ func VerifResetMetrics() {
 	consumerPartitionCurrentOffset.Reset()
 	consumerPartitionLagGauge.Reset()
 	topicPartitionOffsetGauge.Reset()
+}
+
+// VerifListenerHandler returns what the first listener (by name) serves: the Handler of the http.Server that Configure
+// built for it — the router itself, or whatever Configure wrapped around it.
+func (hc *Coordinator) VerifListenerHandler() http.Handler {
+	names := make([]string, 0, len(hc.servers))
+	for name := range hc.servers {
+		names = append(names, name)
+	}
+	if len(names) == 0 {
+		return hc.router
+	}
+	sort.Strings(names)
+	return hc.servers[names[0]].Handler
 }
